@@ -17,8 +17,13 @@ From PV Require Export Base.NpSort C05.Model C05.Spec.
 Import ListNotations.
 Open Scope Z_scope.
 
-Inductive reqk := RGet (r : request) | RAcc (tid : nat) | RClu (cid : Z).
+(* RTouch op: a call of ANOTHER read-only accessor of the same model object (or the caller writing into the arrays of a
+   record it was handed) placed between the requests -- the history axis.  The model is a function of the stored
+   dataset and of the request alone: a touch has no observable of its own and, per check_all below, the records of the
+   requests after it are judged against the SAME stored dataset as those before it. *)
+Inductive reqk := RGet (r : request) | RAcc (tid : nat) | RClu (cid : Z) | RTouch (op : Z).
 Inductive obs1 :=
+| OTouch          (* a touch was performed (whether it returned or raised is not an observable of this property) *)
 | ORec (tpl : list (list Z)) (amp : list Z) (bc : Z) (chans : list Z)
 | OAcc (chans : list Z) (wave : list (list Z))
 | OClu (chans : list Z)
@@ -81,6 +86,7 @@ Definition req_ok (d : dataset) (i : inp) (q : reqk) : bool :=
               match r_thr r with Some t => thr_ok t | None => true end
   | RAcc tid => (tid <? nt)%nat
   | RClu _ => true
+  | RTouch _ => true
   end.
 Definition inp_ok (i : inp) : bool :=
   ds_ok (i_ds i) && forallb (req_ok (i_ds i) i) (i_reqs i) &&
@@ -167,6 +173,7 @@ Definition as27 (codes : list Z) : list Z :=
 Definition check1 (i : inp) (q : reqk) (o : obs1) : list Z :=
   let d := i_ds i in
   match q with
+  | RTouch _ => match o with OTouch => [] | _ => [3] end
   | RGet r =>
       judge d r (match o with
                  | ORec tpl amp bc chans => Some (mkobs tpl amp bc chans)
